@@ -316,3 +316,21 @@ MUTANTS.setdefault('C05', []).extend([
     ('statx-rdev-from-dev', _SX, "            st.st_rdev = makedev(self.stx_rdev_major, self.stx_rdev_minor);", "            st.st_rdev = makedev(self.stx_dev_major, self.stx_dev_minor);"),
     ('statx-mask-any-bit', _SX, "        if self.stx_mask & STATX_BASIC_STATS != 0 {", "        if self.stx_mask != 0 {"),
 ])
+
+# file handles and mount descriptors (unit fhandle; proposed and tried by the sub-agent that built it)
+_FH = 'src/passthrough/file_handle.rs'
+_MFD = 'src/passthrough/mount_fd.rs'
+MUTANTS.setdefault('C15', []).extend([
+    ('fh-probe-fd-leak', _MFD, "            let mount_point_fd = unsafe { File::from_raw_fd(mount_point_fd) };\n", ""),
+    ('fh-no-recheck-under-write-lock', _MFD, "if let Some(mount_fd) = mount_fds_locked.get(&mount_id).and_then(Weak::upgrade) {", "if let Some(mount_fd) = None::<Arc<MountFd>> {"),
+    ('fh-drop-removes-live-entry', _MFD, "            if let Some(0) = map.get(&self.mount_id).map(Weak::strong_count) {", "            if map.get(&self.mount_id).is_some() {"),
+    ('fh-entry-not-inserted', _MFD, "                mount_fds_locked.insert(mount_id, Arc::downgrade(&mount_fd));\n", ""),
+])
+MUTANTS.setdefault('C05', []).extend([
+    ('fh-reopen-no-nofollow', _MFD, "libc::O_RDONLY | libc::O_NOFOLLOW | libc::O_CLOEXEC,", "libc::O_RDONLY | libc::O_CLOEXEC,"),
+    ('fh-mount-id-unchecked', _MFD, "        if stx.mnt_id != mount_id {", "        if false {"),
+    ('fh-errno-swallowed', _FH, "                _ => return Err(err),", "                _ => return Ok(None),"),
+    ('fh-retry-max-buffer', _FH, "let mut c_fh = CFileHandle::new(needed);", "let mut c_fh = CFileHandle::new(MAX_HANDLE_SIZE);"),
+    ('fh-mnt-id-dropped', _FH, "            mnt_id: mount_id as MountId,", "            mnt_id: 0,"),
+    ('fh-oversize-check-removed', _FH, "        if needed > MAX_HANDLE_SIZE {", "        if false {"),
+])
